@@ -19,7 +19,12 @@ META = {
     "text": "Proof (merge algebra, unbounded): unset objects are neutral, merge is associative, commutative "
             "modulo the element order of Concat fields (UseFirst/UseLast classes excluded and reported), hence a "
             "fold of merge over handler outputs does not depend on their order (equal modulo Concat order, or an "
-            "error in every order). Proof (executor model Model/MeshExec.v = execute_for with its three rule loops, "
+            "error in every order); lifted to the executor model: the keyed rule loops return the same sessions for "
+            "every permutation of rule registration (C15_handler_order_indirect/_direct/_virtual), and execute_for as a "
+            "whole returns the same peers and address records or raises in every order (C15_handler_order_exec) for "
+            "flat DTO classes when no indirect session names a plain ifname the device lacks before the run -- without "
+            "that guard it is refuted (C15_exec_order_refuted; reproduced on the real executor by the order probe, "
+            "known/C15.json). Proof (executor model Model/MeshExec.v = execute_for with its three rule loops, "
             "the three interface decision tables, InterfaceChanges and to_bgp_peer; all inputs): the interface of a "
             "direct / indirect session is decided by a declarative table for every DTO, port list, device state and "
             "adapter naming (port, LAG, sub-interface n for every integer n incl. 0, SVI; ValueError exactly on the "
@@ -41,8 +46,10 @@ META = {
             "for its pair), (d) NO LOSS: every handler call of a matching rule shows on both ends -- a peer towards the "
             "other end at the address the call gave, carrying every option / policy / family / AS number / vrf the "
             "call wrote (Spec.P_C15_seq.P_C15_no_loss; proved for the model per merge, per n-ary merge and per handler "
-            "call: C15_merge_no_loss, C15_merge_all_no_loss, C15_call_no_loss; after the keyed merge only a "
-            "statement, C15_no_loss_statement) -- with rules whose name template is a literal host name (no "
+            "call: C15_merge_no_loss, C15_merge_all_no_loss, C15_call_no_loss; through the keyed merge, conv_* and "
+            "mk_peer for execute_for as a whole: C15_no_loss, for all registries and handler tables whose rows are "
+            "answers of calls the run makes, under schema premises the check evaluates on the real classes; the "
+            "unguarded C15_no_loss_statement is refuted by a never-called table row) -- with rules whose name template is a literal host name (no "
             "placeholder) on the left, the right or both sides, direct and indirect, alone (decision tables) and next "
             "to pattern rules, (e) every address family of a peer was assigned by a call for its pair (value level), "
             "(f) HISTORY: one registry whose handlers assign shared constant objects (equal values are one object), a "
@@ -670,8 +677,15 @@ def run_exec_part(ctx, tbl):
     res = core.run_case_files(ID, "exec_output", IMPORTS, {"holds": "fun c => P_C15_exec c"}, terms,
                               per_file=40, tag="exec")
     eterms = [cpair(ecase_term(c, o), seq_term(o)) for c, o in zip(cases, outs)]
-    res2 = core.run_case_files(ID, TY_EXEC_SEQ, IMPORTS_SEQ, EXEC_SEQ_PREDS, eterms,
-                               per_file=20, tag="exec_model", extra_defs=schema_defs(tbl))
+    # noloss_domain is not a clause: it counts the generated registries inside the domain of the theorem C15_no_loss_b
+    res2 = core.run_case_files(ID, TY_EXEC_SEQ, IMPORTS_SEQ + "\nFrom Annet Require Import Spec.P_C15_noloss_wf.",
+                               dict(EXEC_SEQ_PREDS, noloss_domain=(
+                                   "fun c => noloss_case_b sch_DirectPeerDTO sch_IndirectPeerDTO (fst (fst c))")),
+                               eterms, per_file=20, tag="exec_model", extra_defs=schema_defs(tbl))
+    ctx.coverage["noloss_domain"] = {
+        "cases": len(cases), "inside_domain_of_C15_no_loss_b": len(cases) - len(res2["noloss_domain"]),
+        "guard": "Spec.P_C15_noloss_wf.noloss_case_b sch_DirectPeerDTO sch_IndirectPeerDTO (every table row the "
+                 "predicate speaks about is the first row a call of the run finds; handler outputs well-formed)"}
     stats = {"runs": 0, "ok": 0, "ValueError": 0, "other": 0, "peers": 0,
              "cases_with_peers_on_both_ends": 0, "permutations": 0,
              "devices_with_2plus_indirect_peers": 0, "virtual_peers": 0, "peers_without_interface": 0,
@@ -1055,6 +1069,42 @@ def run_known_probe(ctx, tbl):
     ctx.coverage["known_probe"] = {"reproduces": bool(res["holds"]), "model_agrees": not res2["agree"]}
 
 
+KNOWN_ORDER_CASE = {
+    "devices": ["a1", "b1"], "ports": {"a1": [], "b1": []},
+    "rules": [
+        {"kind": "indirect", "left": "a{n}", "right": "b{n}", "cond": "none", "pp": "united",
+         "table": {"a1|b1|": {"l": {"addr": _sv("10.0.0.1/32"), "asnum": _sv(65001), "svi": _sv(5)},
+                              "r": {"addr": _sv("10.0.0.2/32"), "asnum": _sv(65002)}, "s": {}}}},
+        {"kind": "indirect", "left": "a{n}", "right": "b{n}", "cond": "none", "pp": "united",
+         "table": {"a1|b1|": {"l": {"addr": _sv("10.0.1.1/32"), "asnum": _sv(65001), "ifname": _sv("Vlan5")},
+                              "r": {"addr": _sv("10.0.1.2/32"), "asnum": _sv(65002)}, "s": {}}}},
+    ]}
+
+
+def run_order_probe(ctx, tbl):
+    """The witness of C15_exec_order_refuted on the real executor (known/C15.json): reported while it reproduces."""
+    c = KNOWN_ORDER_CASE
+    out = core.run_impl("c15_runner.py", {"op": "exec", "cases": [c]})[0]
+    res = core.run_case_files(ID, "exec_output", IMPORTS, {"holds": "fun c => P_C15_exec c"}, [exec_term(c, out)],
+                              tag="order_probe")
+    res2 = core.run_case_files(ID, "ecase * list (string * eres)", IMPORTS_IFACE, {"agree": AGREE_EXEC},
+                               [ecase_term(c, out)], tag="order_probe_model", extra_defs=schema_defs(tbl))
+    if res["holds"]:
+        ctx.add_violation(core.Violation(
+            signature="C15/handler-order/indirect-ifname-needs-svi-of-later-rule",
+            what="two indirect rules for one pair with different peer addresses: the session of one creates SVI 5, the "
+                 "session of the other names ifname='Vlan5'; registered in one order execute_for succeeds, in the other "
+                 "it raises ValueError (Interface Vlan5 not found): the result depends on handler registration order",
+            replay={"kind": "exec", "case": c, "impl": {d: out["out"][d] for d in c["devices"]}}))
+    if res2["agree"]:
+        ctx.add_violation(core.Violation(
+            signature="C15/executor-model-impl-disagree/order-probe",
+            what="Coq model and MeshExecutor.execute_for differ on the witness of C15_exec_order_refuted",
+            replay={"correspondence": "Model.MeshExec.execute_for vs MeshExecutor.execute_for", "kind": "exec_model",
+                    "case": c, "impl": {d: out["out"][d][:1] for d in c["devices"]}}, no_input=True))
+    ctx.coverage["order_probe"] = {"reproduces": bool(res["holds"]), "model_agrees": not res2["agree"]}
+
+
 def check_schema_guards(ctx, tbl):
     """The premises of C15_key_is_peer_addr, evaluated on the schemas read from the real classes."""
     g = ('match lookup "connected" {p} with Some (MMerge s) => '
@@ -1070,6 +1120,25 @@ def check_schema_guards(ctx, tbl):
                  "C15_key_is_peer_addr do not hold for the real classes",
             replay={"theorem": "C15_key_is_peer_addr", "evaluated": vals}, no_input=True))
     ctx.coverage["schema_guards"] = vals
+    # the schema premises of C15_no_loss (Spec/P_C15_noloss_wf.noloss_schema), on the real classes and the real
+    # PeerOptions fields: Pair.local / Pair.connected merged by Merge() of the direct DTO class (the class the model
+    # is run with for both loops), attributes a Peer is read from ForbidChange, families Unite, no local_as attribute
+    opt = core.run_impl("c15_runner.py", {"op": "option_fields"})
+    optl = clist(cstr(f) for f in opt)
+    n = ('match lookup "local" sch_PairDirect, lookup "connected" sch_PairDirect with '
+         'Some (MMerge a), Some (MMerge b) => noloss_schema {o} a && noloss_schema {o} b | _, _ => false end')
+    nvals = core.coq_eval(ID, IMPORTS_IFACE + "\nFrom Annet Require Import Spec.P_C15_seq Spec.P_C15_noloss_wf.\n"
+                          + schema_defs(tbl),
+                          [n.format(o=optl), f"noloss_schema {optl} sch_DirectPeerDTO",
+                           f"noloss_schema {optl} sch_IndirectPeerDTO"], tag="noloss_schema_guards")
+    if nvals != ["true", "true", "true"]:
+        ctx.add_violation(core.Violation(
+            signature="C15/noloss-schema-guard",
+            what="a DTO attribute a Peer field is read from is no longer a ForbidChange field (or families no longer "
+                 "Unite, or Pair.local / Pair.connected no longer Merge()): the premises of C15_no_loss do not hold for "
+                 "the real classes",
+            replay={"theorem": "C15_no_loss", "evaluated": nvals, "option_fields": opt}, no_input=True))
+    ctx.coverage["noloss_schema_guards"] = nvals
 
 
 def run(ctx):
@@ -1077,6 +1146,7 @@ def run(ctx):
     tbl = core.run_impl("c15_runner.py", {"op": "schemas"})
     check_schema_guards(ctx, tbl)
     run_known_probe(ctx, tbl)
+    run_order_probe(ctx, tbl)
     m = run_merge_part(ctx, tbl)
     it = run_iface_part(ctx, tbl)
     x = run_exec_part(ctx, tbl)
